@@ -584,7 +584,6 @@ func (r *recTB) Fatalf(format string, a ...interface{}) {
 func (r *recTB) Logf(string, ...interface{}) {}
 func (r *recTB) Helper()                     {}
 
-
 // ---- (d) crash at every write system call -------------------------------------
 
 // c05BuildPlan draws an operation list and the model after every prefix.
